@@ -450,6 +450,8 @@ where
                 A::default_or_panic(),
             ),
             ChunkClass::NonDummy(mut chunk) => {
+                let original_chunk = chunk;
+
                 while let Some(next_chunk) = chunk.next() {
                     chunk = next_chunk;
 
@@ -464,7 +466,15 @@ where
                 }
 
                 // there is no chunk that fits, we need a new chunk
-                chunk.append_for(*layout)
+                match chunk.append_for(*layout) {
+                    Ok(new_chunk) => Ok(new_chunk),
+                    Err(error) => {
+                        // Stay where we were. A `Mut*` collection whose growth failed still lives in the
+                        // original chunk and must be able to finish its allocation there.
+                        self.chunk.set(original_chunk.raw);
+                        Err(error)
+                    }
+                }
             }
         }?;
 
